@@ -1112,3 +1112,65 @@ _atomic_rename""",
 
 
 _atomic_rename""")
+
+# ---------------------------------------------------------------- C05
+# (removing the early overwrite=False refusal in setup() is not a violation: the link() at the end still refuses, cleans up and raises)
+M('rename_when_no_overwrite', 'C05', FI,
+  """        else:
+            os.link(src, dst)
+            os.unlink(src)
+        return
+
+
+_atomic_rename""",
+  """        else:
+            os.rename(src, dst)
+        return
+
+
+_atomic_rename""")
+M('unconditional_part_unlink', 'C05', FI,
+  """        if self.overwrite_part and os.path.lexists(self.part_path):
+            os.unlink(self.part_path)""",
+  """        if os.path.lexists(self.part_path):
+            os.unlink(self.part_path)""")
+M('file_perms_ignored', 'C05', FI,
+  """        if do_chmod:
+            try:
+                os.chmod(self.part_path, file_perms)""",
+  """        if do_chmod and self.file_perms is None:
+            try:
+                os.chmod(self.part_path, file_perms)""")
+M('chmod_default_not_replaced', 'C05', FI,
+  """                stat_res = os.stat(self.dest_path)
+                file_perms = stat.S_IMODE(stat_res.st_mode)""",
+  """                stat_res = os.stat(self.dest_path)
+                file_perms = stat.S_IMODE(stat_res.st_mode) | 0o200""")
+M('rename_error_swallowed', 'C05', FI,
+  """                except Exception:
+                    pass  # avoid masking original error
+            raise  # could not save destination file""",
+  """                except Exception:
+                    pass  # avoid masking original error
+            if self.overwrite:
+                raise  # could not save destination file""")
+M('rm_part_only_for_body_errors', 'C05', FI,
+  """        except OSError:
+            if self.rm_part_on_exc:
+                try:
+                    os.unlink(self.part_path)
+                except Exception:
+                    pass  # avoid masking original error
+            raise  # could not save destination file""",
+  """        except OSError:
+            raise  # could not save destination file""")
+M('body_error_publishes', 'C05', FI,
+  """        if exc_type:
+            if self.rm_part_on_exc:""",
+  """        if exc_type and not isinstance(exc_val, OSError):
+            if self.rm_part_on_exc:""")
+M('umask_ignored_default', 'C05', FI,
+  """                file_perms = self._default_file_perms
+                do_chmod = False  # respect the umask""",
+  """                file_perms = self._default_file_perms
+                do_chmod = self.text_mode  # respect the umask""")
